@@ -35,6 +35,9 @@ var c10Files = map[string]string{
 	"filters.vuego":      `<p>{{ a | upper }} {{ b | default("dflt") }} {{ len(items) }} {{ a | lower | title }}</p>`,
 	"fm.vuego":           "---\ntitle: from-fm\nextra: [1, 2]\n---\n<h1>{{ title }}</h1><p>{{ a }}</p><i v-for=\"x in extra\">{{ x }}</i>",
 	"layouted.vuego":     "---\nlayout: main\n---\n<p>{{ a }} in layout</p>",
+	// a page that hands named slots to its layout; the layout places them next to other content
+	"slotpage.vuego":    "---\nlayout: slots\n---\n<template #sidebar><nav>menu {{ b }}</nav></template><template v-slot:foot><i>f</i><b>g</b></template><p>Hello {{ a }}</p>",
+	"layouts/slots.vuego": `<aside><slot name="sidebar"></slot><footer>signed in as {{ a }}</footer></aside><main v-html="content"></main><div><slot name="foot"></slot><u>{{ b }}</u></div>`,
 	"layouts/main.vuego": `<html><body><div v-html="content"></div><footer>{{ a }}</footer></body></html>`,
 	"fail.vuego":         `<p>{{ a | nosuchfunction }}</p>`,
 	"failinc.vuego":      `<b>x</b><template include="missing.vuego"></template>`,
@@ -84,7 +87,7 @@ func c10Data(variant int) func() map[string]any {
 
 func c10Progs() []c10Prog {
 	var out []c10Prog
-	for _, f := range []string{"attrs", "style", "loop", "chain", "inc", "once", "filters", "fm", "layouted", "fmset", "nest", "fail", "failinc", "failmid", "failtext", "failreq", "tpl", "vhtml", "map"} {
+	for _, f := range []string{"attrs", "style", "loop", "chain", "inc", "once", "filters", "fm", "layouted", "slotpage", "fmset", "nest", "fail", "failinc", "failmid", "failtext", "failreq", "tpl", "vhtml", "map"} {
 		for v := 0; v < 4; v++ {
 			out = append(out, c10Prog{fmt.Sprintf("%s/%d", f, v), f + ".vuego", c10Data(v)})
 		}
@@ -155,6 +158,10 @@ func runC10(r *Run, replay *Case) {
 		}
 		r.Add(c)
 	}
+	if replay != nil && replay.Input["kind"] == "nofs" {
+		c10NoFS(r)
+		return
+	}
 	if replay != nil {
 		for _, p := range progs {
 			if p.name == replay.Input["prog"] {
@@ -171,7 +178,7 @@ func runC10(r *Run, replay *Case) {
 		for i := 0; i < reps; i++ {
 			out, e, _, _ := c10Render(long, p, i%2 == 1)
 			_ = e
-			if p.page == "layouted.vuego" && i%2 == 1 {
+			if (p.page == "layouted.vuego" || p.page == "slotpage.vuego") && i%2 == 1 {
 				continue // Vue.Render does not apply layouts: a different program
 			}
 			if i == 0 {
@@ -200,7 +207,7 @@ func runC10(r *Run, replay *Case) {
 	// the pure Lean model against the LONG-USED engine: after everything above, each program still renders what the model — a function of
 	// (files, data) with no memory — says
 	for _, p := range progs {
-		if p.page == "layouted.vuego" {
+		if p.page == "layouted.vuego" || p.page == "slotpage.vuego" {
 			continue
 		}
 		out, e, _, _ := c10Render(long, p, true)
@@ -232,5 +239,75 @@ func runC10(r *Run, replay *Case) {
 			c10Render(long, p, r.Rng.Intn(2) == 0)
 		}
 		check("sequence", hist, progs[r.Rng.Intn(len(progs))], r.Rng.Intn(3) == 0)
+	}
+	c10NoFS(r)
+}
+
+// an engine WITHOUT a filesystem (vuego.New()), used through New() / Assign / RenderString: every ordered pair and triple of requests on one
+// engine against the last request alone on a fresh engine. A request = optional Assign on a per-request copy + a template string.
+type c10Req struct {
+	name   string
+	assign [2]string // key, value ("" = no Assign)
+	tpl    string
+}
+
+var c10Reqs = []c10Req{
+	{"assign-user", [2]string{"user", "alice"}, `<p>user=[{{ user }}]</p>`},
+	{"read-user", [2]string{}, `<p>user=[{{ user }}]</p><i v-if="user">in</i>`},
+	{"template-attr", [2]string{}, `<template secret="s3cr3t"></template><b>[{{ secret }}]</b>`},
+	{"read-secret", [2]string{}, `<b>[{{ secret }}]</b><i :title="secret">t</i>`},
+	{"template-bound", [2]string{"n", "2"}, `<template :k="n"></template><u>{{ k }}</u>`},
+	{"read-k", [2]string{}, `<u>[{{ k }}|{{ n }}]</u>`},
+	{"pipe-dot", [2]string{"s", "x"}, `<p>{{ s | upper }}</p>`},
+	{"loop", [2]string{}, `<li v-for="q in qs">{{ q }}</li><p v-else>none [{{ q }}]</p>`},
+}
+
+func c10NoFSRun(t vuego.Template, rq c10Req) string {
+	var buf bytes.Buffer
+	var err error
+	func() {
+		defer func() {
+			if e := recover(); e != nil {
+				err = fmt.Errorf("panic: %v", e)
+			}
+		}()
+		c := t.New()
+		if rq.assign[0] != "" {
+			c = c.Assign(rq.assign[0], rq.assign[1])
+		}
+		err = c.RenderString(context.Background(), &buf, rq.tpl)
+	}()
+	if err != nil {
+		return "error"
+	}
+	return buf.String()
+}
+
+func c10NoFS(r *Run) {
+	var seqs [][]int
+	for i := range c10Reqs {
+		for j := range c10Reqs {
+			seqs = append(seqs, []int{i, j})
+			for k := range c10Reqs {
+				if r.Thorough() || (i+2*j+3*k)%5 == 0 {
+					seqs = append(seqs, []int{i, j, k})
+				}
+			}
+		}
+	}
+	for _, sq := range seqs {
+		long := vuego.New()
+		var hist []string
+		var last string
+		for _, i := range sq {
+			last = c10NoFSRun(long, c10Reqs[i])
+			hist = append(hist, c10Reqs[i].name)
+		}
+		want := c10NoFSRun(vuego.New(), c10Reqs[sq[len(sq)-1]])
+		c := &Case{Name: fmt.Sprintf("nofs %v", hist), Input: map[string]any{"kind": "nofs", "history": hist}, Impl: map[string]any{"out": last}, Key: fmt.Sprintf("nofs|%v", hist), Tags: []string{"kind:nofs"}, Oracle: &Verdict{OK: true}}
+		if last != want {
+			c.Oracle = &Verdict{OK: false, Class: "differs-from-fresh:nofs-engine", Detail: fmt.Sprintf("after %v the request %s gives %q, alone on a fresh engine %q", hist[:len(hist)-1], hist[len(hist)-1], last, want)}
+		}
+		r.Add(c)
 	}
 }
